@@ -491,7 +491,7 @@ pub fn check() -> PropertyCheck {
             }),
             Box::new(Pbt {
                 name: "history",
-                quick: 3_000,
+                quick: 10_000,
                 thorough: 200_000,
                 strat: hist_strat,
                 test: hist_test,
@@ -499,7 +499,7 @@ pub fn check() -> PropertyCheck {
             }),
             Box::new(Pbt {
                 name: "tcp-storm",
-                quick: 6_000,
+                quick: 30_000,
                 thorough: 500_000,
                 strat: storm_strat,
                 test: storm_test,
